@@ -142,7 +142,7 @@ PLANS = {
         mc=[MC_API],
         model_ok=False,
         nontrivial=lambda rec: len({(s['op'], s['route']) for s in rec.get('hist', []) if s['op'] in ('oneshot', 'render')}) >= 3,
-        rule='MC: every history of <= MaxOps API calls (one-shot string/lines[/coloured], parse_html, dom_to_render_tree, clone, render_to_string/lines[/coloured] consuming the tree) over 2 documents and widths {0, 3, 9}; each emitted history is replayed call by call on the real API and compared with the specification after every call; random: histories of 4..14 calls over 1-2 grammar documents, 2-4 widths (repeated, out of order, failing ones in between), all decorators and option mixes; non-trivial = at least three distinct (call kind, route) pairs produce a rendering; distinct by sha256(history)',
+        rule='MC: every history of <= MaxOps API calls (one-shot string/lines[/coloured], parse_html, dom_to_render_tree, clone, render_to_string/lines[/coloured] consuming the tree) over 2 documents and widths {0, 3, 9}; each emitted history is replayed call by call on the real API (one configuration object for all staged calls of a history) and compared with the specification after every call; random: histories of 4..14 calls over 1-2 grammar documents, 2-4 widths (repeated, out of order, failing ones in between), all decorators and option mixes; non-trivial = at least three distinct (call kind, route) pairs produce a rendering; distinct by sha256(history)',
         assumptions=['the colour map of the coloured routes is the identity', 'lines routes are compared after joining the tagged strings of each line'],
     ),
     'C16': dict(
